@@ -1584,27 +1584,35 @@ class Inliner:
         # be pure)
         if isinstance(root, dict):
             nested = []
+            above = {}
 
-            def scan(n, top):
+            def scan(n, top, anc):
                 if not isinstance(n, dict):
                     return
                 kk = n.get("k")
                 if kk == "Lambda":
                     return
                 if kk == "Cond":
-                    scan(n.get("c"), False)
+                    scan(n.get("c"), False, anc)
                     return
                 if kk == "Bin" and n.get("op") in ("&&", "||", ","):
-                    scan(n.get("lhs"), False)
+                    scan(n.get("lhs"), False, anc)
                     return
                 if not top and is_call(n):
-                    nested.append(unwrap(n))
+                    u = unwrap(n)
+                    nested.append(u)
+                    above[id(u)] = anc
+                    if self.find_lambda(u, self._lambdas) is None and self.target_function(u) is None:
+                        # not a helper itself (`read_int(next_head())`): its arguments are evaluated before it runs, a helper
+                        # call among them runs before everything the statement does
+                        for c in ir.children(u):
+                            scan(c, False, anc + [u])
                     return
                 for c in ir.children(n):
-                    scan(c, False)
-            scan(root, True)
+                    scan(c, False, anc)
+            scan(root, True, [])
             cand = [n for n in nested if (self.find_lambda(n, self._lambdas) is not None or self.target_function(n) is not None)]
-            others = [n for n in nested if not any(n is c for c in cand)]
+            others = [n for n in nested if not any(n is c for c in cand) and not (len(cand) == 1 and any(n is a_ for a_ in above[id(cand[0])]))]
             if len(cand) == 1 and all(is_pure(n, self.facts) for n in others):
                 target = cand[0]
 
